@@ -33,7 +33,8 @@ SRC_DISP = 'src/qce_circuit/visualization/visualize_circuit/display_circuit.py'
 SRC_TC = 'src/qce_circuit/visualization/visualize_circuit/draw_components/transform_constructor.py'
 SRC_MULTI = 'src/qce_circuit/visualization/visualize_circuit/draw_components/factory_multi_draw_components.py'
 SRC_IFAC = 'src/qce_circuit/visualization/visualize_circuit/intrf_factory_draw_components.py'
-SOURCES = [SRC_GRAPH, SRC_OP, SRC_COMP, SRC_DUR, SRC_CTX, SRC_DISP, SRC_TC, SRC_MULTI, SRC_IFAC]
+SRC_DECL = 'src/qce_circuit/language/intrf_declarative_circuit.py'
+SOURCES = [SRC_GRAPH, SRC_OP, SRC_COMP, SRC_DUR, SRC_CTX, SRC_DISP, SRC_TC, SRC_MULTI, SRC_IFAC, SRC_DECL]
 
 INVALIDATE = 'invalidate_start_time_cache'
 LINKS = ('RelationLink', 'MultiRelationLink')
@@ -234,6 +235,43 @@ def link_assignment_fresh(tree, method):
     if isinstance(v, (ast.Name, ast.Attribute)):
         return False
     fail(assigns[0], f"{method}: unrecognised relation-link value `{ast.unparse(v)}`")
+
+
+def add_dispatch(tree):
+    """IDeclarativeCircuit.add: a sequence of `if isinstance(operation, <Class>): return self.<method>(<kw>=operation)` statements
+    followed by a raise.  Returns the (class, method) pairs in source order; anything else: fail closed."""
+    fn = norm_function(find_func(find_class(tree, 'IDeclarativeCircuit'), 'add'))
+    body = strip_doc(fn.body)
+    arg = fn.args.args[1].arg
+    rows = []
+    for s in body[:-1]:
+        ok = (isinstance(s, ast.If) and not s.orelse and len(s.body) == 1 and isinstance(s.body[0], ast.Return)
+              and isinstance(s.test, ast.Call) and isinstance(s.test.func, ast.Name) and s.test.func.id == 'isinstance'
+              and len(s.test.args) == 2 and isinstance(s.test.args[0], ast.Name) and s.test.args[0].id == arg
+              and isinstance(s.test.args[1], ast.Name))
+        if not ok:
+            fail(s, 'add: `if isinstance(operation, C): return self.m(k=operation)` expected')
+        call = s.body[0].value
+        if not (isinstance(call, ast.Call) and attr_chain(call.func) and attr_chain(call.func)[0] == 'self' and len(attr_chain(call.func)) == 2
+                and not call.args and len(call.keywords) == 1 and isinstance(call.keywords[0].value, ast.Name) and call.keywords[0].value.id == arg):
+            fail(s, 'add: `return self.m(k=operation)` expected')
+        rows.append((s.test.args[1].id, attr_chain(call.func)[1]))
+    if not isinstance(body[-1], ast.Raise):
+        fail(body[-1], 'add: final raise expected')
+    return rows
+
+
+def declarative_unwraps(tree):
+    """IDeclarativeCircuit.add_declarative_circuit hands circuit.circuit_structure to add_sub_circuit"""
+    fn = find_func(find_class(tree, 'IDeclarativeCircuit'), 'add_declarative_circuit')
+    body = strip_doc(fn.body)
+    if len(body) != 1 or not isinstance(body[0], ast.Return):
+        fail(fn, 'add_declarative_circuit: single return expected')
+    return ast.unparse(body[0].value).replace(' ', '') == f"self.add_sub_circuit(operation={fn.args.args[1].arg}.circuit_structure)"
+
+
+def class_bases(tree, name):
+    return [b.id for b in find_class(tree, name).bases if isinstance(b, ast.Name)]
 
 
 def mp_set_registry(tree):
@@ -601,6 +639,7 @@ def generate(repo):
     t_tc = parse_file(f"{repo}/{SRC_TC}")
     t_multi = parse_file(f"{repo}/{SRC_MULTI}")
     t_ifac = parse_file(f"{repo}/{SRC_IFAC}")
+    t_decl = parse_file(f"{repo}/{SRC_DECL}")
 
     out = ["(* GENERATED by tools/translate/gen_flags.py from the current /repo sources -- do not edit *)",
            "From Coq Require Import ZArith List Bool String.", "Import ListNotations.", "Open Scope Z_scope.",
@@ -663,6 +702,14 @@ def generate(repo):
             "   hand links down?  Sub-circuits are compared by value incl. the link's instance identifier (F12, F21). *)",
             f"Definition handoff_link_fresh_per_node : bool := {cbool(link_assignment_fresh(t_comp, 'decomposed_operations'))}.",
             f"Definition extend_link_fresh_per_node : bool := {cbool(link_assignment_fresh(t_comp, 'extend'))}.", ""]
+    # (j)
+    rows = add_dispatch(t_decl)
+    out += ["(* (j) IDeclarativeCircuit.add: the isinstance tests in source order with the method each hands the argument to; the class",
+            "   hierarchy facts the dispatch depends on *)",
+            "Definition add_dispatch : list (string * string) := [" + "; ".join(f"({cstr(a)}, {cstr(b)})" for a, b in rows) + "].",
+            f"Definition add_declarative_hands_structure_to_add_sub_circuit : bool := {cbool(declarative_unwraps(t_decl))}.",
+            f"Definition composite_interface_is_an_operation : bool := {cbool('ICircuitOperation' in class_bases(t_comp, 'ICircuitCompositeOperation'))}.",
+            f"Definition declarative_circuit_is_an_operation : bool := {cbool('ICircuitOperation' in class_bases(t_decl, 'IDeclarativeCircuit'))}.", ""]
     # (h)
     xattr = pivot_shape(t_tc)
     floor, margin, height, factor = description_constants(t_disp)
